@@ -400,6 +400,9 @@ def _lexer_of(I, fi, loop):
     return g
 
 
+_STAGE_PRE: dict = {}
+
+
 def _stage_init(fi, loop):
     """Abstract values of the locals when the loop of generator ``fi`` is first reached."""
     pre_I = new_interp()
@@ -413,7 +416,18 @@ def _stage_init(fi, loop):
     pre_stmts = [s for s in pre_stmts if not (isinstance(s, ast.Expr) and isinstance(s.value, ast.Constant))]
     pre_I.exec_block(pre_stmts, pre_state, [])
     pre_I.stack.pop()
-    return pre_I, act, rowp, dict(pre_state.env)
+    env = dict(pre_state.env)
+    # a small object of the repository holding part of the scan's state (a cursor with the iterator and the column): its
+    # fields are state variables like the locals, named "<local>.<field>"
+    for k, v in list(env.items()):
+        if isinstance(v, tuple) and v and v[0] == "ref" and isinstance(pre_I.obj(v), HInst):
+            fields = {a_: val for (b_, a_), val in pre_state.ext.items() if b_ == v}
+            if fields:
+                del env[k]
+                for a_, val in fields.items():
+                    env[f"{k}.{a_}"] = val
+    _STAGE_PRE[id(fi)] = pre_stmts
+    return pre_I, act, rowp, env
 
 
 def splitter_table():
@@ -515,16 +529,30 @@ def splitter_table():
             I2 = new_interp()
             st = State()
             sym = {}
+            objs = sorted({k.split(".", 1)[0] for k in state_init if "." in k})
+            if objs and outer is None:
+                # the objects holding state are made as the function makes them, then their fields get the state's values
+                st.env[cfi.params()[-1]] = rowp
+                I2.stack.append(Activation(cfi, 0))
+                I2.exec_block(_STAGE_PRE[id(cfi)], st, [])
+                I2.stack.pop()
+
+            def put(k, v, st=st):
+                if "." in k:
+                    var, attr = k.split(".", 1)
+                    st.ext[(st.env[var], attr)] = v
+                else:
+                    st.env[k] = v
             for k, v in state_init.items():
                 if k == itv:
-                    st.env[k] = v
+                    put(k, v)
                 elif k == flag:
-                    st.env[k] = const(before if first else not before)
+                    put(k, const(before if first else not before))
                 elif k in modes:
-                    st.env[k] = v
+                    put(k, v)
                 else:
                     sym[k] = ("param", k)
-                    st.env[k] = ("param", k)
+                    put(k, ("param", k))
             # a cell collected as a list of pieces (joined when complete) is the text the pieces spell: the list starts as
             # "whatever was collected so far" and is read back as the concatenation of its content
             list_vars = [k for k, v in state_init.items() if k not in (itv, flag) and isinstance(pre_I.obj(v), HList) and not pre_I.obj(v).segs] \
@@ -620,6 +648,11 @@ def splitter_table():
                     return ("tuple", tuple(as_text(x) for x in t[1]))
                 return t
             if end is not None:
+                for k in state_init:
+                    if "." in k:
+                        var, attr = k.split(".", 1)
+                        if var in end.env and (end.env[var], attr) in end.ext:
+                            end.env[k] = end.ext[(end.env[var], attr)]
                 for k in list_vars:
                     if k in end.env:
                         end.env[k] = as_text(end.env[k])
@@ -784,6 +817,11 @@ def rule_split_init(rep: Report, rid="C04.cells", rid_trim=None) -> None:
     st.env[fi.params()[-1]] = ("param", fi.params()[-1])
     I2.exec_block([s for s in fi.node.body[: fi.node.body.index(loop)] if not (isinstance(s, ast.Expr) and isinstance(s.value, ast.Constant))], st, [])
     I2.stack.pop()
+    for k_, v_ in list(st.env.items()):
+        if isinstance(v_, tuple) and v_ and v_[0] == "ref" and isinstance(I2.obj(v_), HInst):
+            for (b_, a_), val_ in st.ext.items():
+                if b_ == v_:
+                    st.env[f"{k_}.{a_}"] = val_         # state kept in an object's fields (see splitter_table)
     if colv == ENUM_COL:
         es = [e for e in (_enum_start(v, ("param", fi.params()[-1])) for v in st.env.values()) if e is not None]
         st.env[ENUM_COL] = const(es[0] - 1) if len(es) == 1 else NONE
